@@ -251,15 +251,15 @@ async def episode(loop, frames_and_gaps, reads_per_step, rnd) -> dict:
     return {"evs": evs, "reads": reads, "errors": errors, "loop_errors": list(loop.errors)}
 
 
-def oracle(chk: Check, evs: list[str], reads: list, rep: dict) -> None:
+def oracle(chk: Check, evs: list[str], reads: list, rep: dict, src: str = CTL) -> None:
     """The property on the implementation's own answers (independent of the Lean model)."""
     newest: dict[tuple[str, str], tuple[int, str, int, int]] = {}   # (zone, code) -> (dtm, life, value, seq)
     noticed: set = set()
     for ev, rd in zip(evs, reads):
         p = ev.split(",")
         if p[0] == "M":
-            _, seq, src, dst, verb, code, dtm, life, el = p
-            if src != CTL or verb not in ("I", "RP") or not el:
+            _, seq, src_, dst, verb, code, dtm, life, el = p
+            if src_ != src or verb not in ("I", "RP") or not el:
                 continue
             for kv in el.split("|"):
                 z, v = kv.split("=")
@@ -354,6 +354,103 @@ def part_b(chk: Check, rnd: random.Random, thorough: bool) -> None:
     chk.extra["model_ops_compared"] = chk.extra.get("model_ops_compared", 0) + len(reqs)
 
 
+# ---------------------------------------------------------------------------------------------
+# (C) the same, for attributes of devices and of the hot-water / system entities
+
+DHW_S, BDR, TRV2 = "07:045960", "13:237335", "04:189076"
+DEV_ATTRS = {   # (entity tag, attribute) -> (sender, code, verb, payload maker, value of payload)
+    ("trv", "temperature"): (TRV, "30C9", " I", lambda v: "00" + hex_temp(v), lambda v: v),
+    ("trv2", "temperature"): (TRV2, "30C9", " I", lambda v: "00" + hex_temp(v), lambda v: v),
+    ("trv", "window_open"): (TRV, "12B0", " I", lambda v: "00" + ("C800" if v % 2 else "0000"), lambda v: v % 2),
+    ("dhw_sensor", "temperature"): (DHW_S, "1260", " I", lambda v: "00" + hex_temp(v), lambda v: v),
+}
+
+
+async def dev_episode(loop, steps, rnd) -> dict:
+    schema = {"main_tcs": CTL, CTL: {"zones": {"00": {"class": "radiator_valve", "actuators": [TRV]}, "01": {"class": "radiator_valve", "actuators": [TRV2]}},
+                                    "stored_hotwater": {"sensor": DHW_S}, "system": {"appliance_control": BDR}}}
+    rig = gwrig.Rig(loop, schema=schema)
+    await rig.start()
+    gwy = rig.gwy
+    tcs = gwy.system_by_id[CTL]
+    ent = {"trv": gwy.device_by_id[TRV], "trv2": gwy.device_by_id[TRV2], "dhw_sensor": gwy.device_by_id[DHW_S], "bdr": gwy.device_by_id[BDR], "dhw": tcs.dhw}
+    seen: list = []
+    gwy.add_msg_handler(seen.append)
+    evs, reads, errors = [], [], []
+    seq = 0
+    for gap, tagattr, v in steps:
+        await asyncio.sleep(gap)
+        if tagattr is not None and DEV_ATTRS[tagattr][3] is not None:
+            sender, code, verb, mk, val = DEV_ATTRS[tagattr]
+            pl = mk(v)
+            seen.clear()
+            await rig.feed(f"{verb} --- {sender} --:------ {sender} {code} {len(pl) // 2:03d} {pl}")
+            for msg in seen:
+                seq += 1
+                who = [t for (t, a), spec in DEV_ATTRS.items() if spec[0] == msg.src.id and spec[1] == str(msg.code)]
+                el = "|".join(f"{t}={val(v)}" for t in who)
+                evs.append("M,%d,%s,%s,%s,%s,%d,%s,%s" % (seq, "DEV", msg.dst.id, msg.verb.strip(), str(msg.code), us(msg.dtm), life_of(msg), el))
+                reads.append(None)
+        for _ in range(rnd.randint(1, 3)):
+            tag, attr = rnd.choice(list(DEV_ATTRS))
+            code = DEV_ATTRS[(tag, attr)][1]
+            now = gwrig.vnow(loop)
+            try:
+                x = getattr(ent[tag], attr)
+            except Exception as e:  # noqa: BLE001
+                errors.append((tag, attr, repr(e)))
+                x = "ERR"
+            await asyncio.sleep(0)
+            if isinstance(x, bool):
+                x = int(x)
+            elif isinstance(x, (int, float)):
+                x = round(x * (10000 if attr == "relay_demand" else 100))
+            evs.append("R,%d,%s,%s" % (us(now), tag, code))
+            reads.append((us(now), tag, f"{tag}.{attr}", x))
+    await rig.stop()
+    return {"evs": evs, "reads": reads, "errors": errors, "loop_errors": list(loop.errors)}
+
+
+def part_c(chk: Check, rnd: random.Random, thorough: bool) -> None:
+    global ATTRS
+    n_ep = 120 if thorough else 25
+    zone_attrs = ATTRS
+    for _ in range(n_ep):
+        steps = []
+        tempo = rnd.choice(("fast", "mixed", "slow"))
+        sent: list = []
+        for _ in range(rnd.randint(12, 50)):
+            gap = rnd.choice({"fast": (0.1, 5.0, 60.0, 400.0), "slow": (359.0, 361.0, 722.9, 723.1, 1300.0, 3600.0, 3604.0, 7300.0),
+                              "mixed": (0.1, 100.0, 360.0, 723.0, 1000.0, 3603.0, 7203.5, 10000.0)}[tempo])
+            r = rnd.random()
+            if r < 0.2:
+                steps.append((gap, None, 0))
+            elif r < 0.4 and sent:
+                steps.append((gap,) + rnd.choice(sent[-5:]))     # the same value again
+            else:
+                ta = rnd.choice([k for k, sp in DEV_ATTRS.items() if sp[3] is not None])
+                v = rnd.randrange(500, 3000)
+                sent.append((ta, v))
+                steps.append((gap, ta, v))
+
+        async def body(loop, steps=steps):
+            return await dev_episode(loop, steps, rnd)
+
+        res, _ = gwrig.run(body)
+        chk.evaluations += 1
+        rep = {"op": "device-history", "steps": [(g, list(t) if t else None, v) for g, t, v in steps]}
+        chk.nontrivial.add(("dev", tuple(res["evs"])))
+        if res["errors"] or res["loop_errors"]:
+            chk.violation("c14.exception", f"{(res['errors'] or res['loop_errors'])[:2]}", rep)
+        # the same oracle, with (entity, code) in the place of (zone, code)
+        ATTRS = {f"{t}.{a}": ([DEV_ATTRS[(t, a)][1]], a, 1) for (t, a) in DEV_ATTRS}
+        try:
+            oracle(chk, res["evs"], [None if r is None else (r[0], r[1], r[2], r[3]) for r in res["reads"]], rep, src="DEV")
+        finally:
+            ATTRS = zone_attrs
+        chk.count("device_history.reads", sum(1 for e in res["evs"] if e[0] == "R"))
+
+
 def run(chk: Check) -> None:
     rt.quiet()
     rnd = random.Random(chk.seed)
@@ -362,10 +459,12 @@ def run(chk: Check) -> None:
         "(A) _expired of real Message objects (distinct I/RP frames of the repo logs + 1F09 countdowns incl. 0 and 65535) at 11-17 "
         "clock values each on the microsecond grid around lifetime and 2*lifetime+3 s, forwards and backwards; (B) seeded histories of "
         "15-70 steps on a real 6-zone gateway: array/per-zone I/RP forms of 30C9, 2309, 2349, 12B0, 000A, noise from a second controller, "
-        "TRVs, requests and writes, clock gaps 0.1 s - 3 h, 1-3 attribute reads after every step; non-trivial = distinct frame (A) / distinct event trace (B)"
+        "TRVs, requests and writes, clock gaps 0.1 s - 3 h, 1-3 attribute reads after every step; (C) the same for attributes of devices and "
+        "(two TRVs' temperature / window state, the DHW sensor's temperature), steady values re-announced; non-trivial = distinct frame (A) / distinct event trace (B, C)"
     )
     part_a(chk, rnd, thorough)
     part_b(chk, rnd, thorough)
+    part_c(chk, rnd, thorough)
     chk.assumptions.append("age/lifespan >= 2.0 in binary64 equals the exact rational comparison for lifespans below 2^52 us")
     chk.sample({"history": "I 30C9 array (zones 00,01) at t; RP 30C9 zone 01 at t+690 s; read zone 00 at t+724 s", "expect": "zone 00 unknown, zone 01 live"})
 
